@@ -36,7 +36,8 @@ ASSUMPTIONS = ["VLoop keeps asyncio FIFO semantics; SimNet pipes behave like rel
                "the upstream proxy peer is a plain RFC 9110 CONNECT/absolute-form proxy that tunnels bytes verbatim",
                "the credential marker is unique: it cannot occur in any byte string the client sends"]
 EXPECTED_PROBES = ["proxy_connect", "proxy_absolute", "tunnel_plain_request", "tunnel_tls_request", "reverse_request",
-                   "origin_request", "upstream_proxy_tls", "absolute_https_in_tunnel", "marker_at_proxy", "marker_at_reverse_target", "no_auth_runs"]
+                   "origin_request", "upstream_proxy_tls", "absolute_https_in_tunnel", "same_hostport_https_then_http",
+                   "same_hostport_http_then_https", "plain_http_for_tls_port_at_proxy", "marker_at_proxy", "marker_at_reverse_target", "no_auth_runs"]
 
 UP_HTTP = "upstream:http://p.test:3128"
 UP_HTTPS = "upstream:https://p.test:3128"
@@ -85,7 +86,28 @@ def generate(rng, tier):
         steps = []
         entry = {}
         if fam in ("regular", "upstream"):
-            for _ in range(r.choice([0, 0, 1, 1, 2])):
+            shared = r.random() < (0.45 if fam == "upstream" else 0.25)
+            if shared:
+                # 2-4 absolute-form requests on this ONE connection that reach the same host AND port once as https://
+                # and once as http:// (either order), plus controls on other ports: the proxy must keep "plain connection
+                # to the upstream proxy for host:P" and "CONNECT+TLS tunnel to host:P" apart when it re-uses connections
+                host = f"o{r.randrange(3)}.test"
+                port = r.choice([443, 443, 8443])
+                kinds = ["https_same", "http_same"]
+                for _ in range(r.choice([0, 0, 1, 2])):
+                    kinds.append(r.choice(["https_same", "http_same", "http_other", "https_other"]))
+                r.shuffle(kinds)
+                for k in kinds:
+                    if k == "https_same":
+                        steps.append(_req(r, nt(), "absolute", "https", host, port))
+                    elif k == "http_same":
+                        steps.append(_req(r, nt(), "absolute", "http", host, port))
+                    elif k == "http_other":
+                        steps.append(_req(r, nt(), "absolute", "http", host, r.choice([80, 8080])))
+                    else:
+                        steps.append(_req(r, nt(), "absolute", "https", host, 8443 if port == 443 else 443))
+                    steps[-1]["shared"] = True
+            for _ in range(0 if shared else r.choice([0, 0, 1, 1, 2])):
                 # "GET https://host/..." sent to the proxy directly (no CONNECT by the client): in upstream mode the proxy
                 # itself CONNECTs through the upstream proxy, does TLS with the origin and sends the request inside
                 if r.random() < (0.4 if fam == "upstream" else 0.15):
@@ -301,9 +323,15 @@ def oracle(sc, log, w):
     want = b"Basic " + base64.b64encode(auth.encode("utf8")) if auth else None
     shape_of = {}
     for c in sc.get("clients", []):
-        for s in c.get("steps", []):
+        first = {}
+        for i, s in enumerate(c.get("steps", [])):
             if s.get("op") == "req":
                 shape_of[s["tok"]] = f"{s.get('form')}-{s.get('scheme')}"
+                if s.get("form") == "absolute":
+                    first.setdefault((s.get("host"), s.get("port"), s.get("scheme")), i)
+        for (h, p, sch), i in sorted(first.items(), key=repr):
+            if sch == "https" and (h, p, "http") in first:
+                bump("same_hostport_https_then_http" if i < first[(h, p, "http")] else "same_hostport_http_then_https")
     for e in log:
         m = e.get("msg")
         zone = e["zone"]
@@ -322,6 +350,8 @@ def oracle(sc, log, w):
             bump("absolute_https_in_tunnel")
         if zone == "proxy":
             bump("proxy_connect" if is_connect else "proxy_absolute")
+            if not is_connect and re.match(rb"http://[^/]*:(443|8443)/", m.target):
+                bump("plain_http_for_tls_port_at_proxy")
             if e["tls"]:
                 bump("upstream_proxy_tls")
         elif zone == "tunnel":
